@@ -7,3 +7,4 @@ open XsVerif.Props.C01
 #print axioms visitor_counterexample_choice_excess
 #print axioms visitor_counterexample_emptiable_repeat
 #print axioms error_index_in_range
+#print axioms accepted_children_admitted
